@@ -69,7 +69,8 @@ struct TaskE {
     fut: BoxFut,
     uid: u64,
     k: i64,
-    with_dispatch: bool,
+    /// the collector a `with_collector` wrapper installs for each poll (1 = the second collector, -1 = none)
+    with_dispatch: Option<i64>,
 }
 
 struct Model {
@@ -430,18 +431,20 @@ fn exec(op: &Value) {
             if wrap == "in_current" {
                 let (k, uid) = model_current();
                 let f: BoxFut = Box::pin(fut.in_current_span());
-                m(|mo| mo.tasks[task] = Some(TaskE { fut: f, uid, k, with_dispatch: false }));
+                m(|mo| mo.tasks[task] = Some(TaskE { fut: f, uid, k, with_dispatch: None }));
                 return;
             }
             if let Some(e) = take_slot(slot) {
                 let (uid, k) = if e.disabled { (0, -1) } else { (e.uid, e.k) };
-                let (f, wd): (BoxFut, bool) = match wrap.as_str() {
-                    "tf" => (Box::pin(tracing_futures::Instrument::instrument(fut, e.span)), false),
+                let (f, wd): (BoxFut, Option<i64>) = match wrap.as_str() {
+                    "tf" => (Box::pin(tracing_futures::Instrument::instrument(fut, e.span)), None),
                     "with_dispatch" => {
                         let d1 = m(|mo| mo.collectors[1].clone());
-                        (Box::pin(fut.instrument(e.span).with_collector(d1)), true)
+                        (Box::pin(fut.instrument(e.span).with_collector(d1)), Some(1))
                     }
-                    _ => (Box::pin(fut.instrument(e.span)), false),
+                    // silenced: every poll runs under the no-op collector, whatever the polling thread's default is
+                    "with_none" => (Box::pin(fut.instrument(e.span).with_collector(Dispatch::none())), Some(-1)),
+                    _ => (Box::pin(fut.instrument(e.span)), None),
                 };
                 m(|mo| mo.tasks[task] = Some(TaskE { fut: f, uid, k, with_dispatch: wd }));
             }
@@ -450,8 +453,8 @@ fn exec(op: &Value) {
             let task = op["task"].as_u64().unwrap_or(0) as usize % NTASKS;
             let te = m(|mo| mo.tasks[task].take());
             if let Some(mut te) = te {
-                if te.with_dispatch {
-                    TC.with(|tc| tc.borrow_mut().model_defaults.push(1));
+                if let Some(k) = te.with_dispatch {
+                    TC.with(|tc| tc.borrow_mut().model_defaults.push(k));
                 }
                 expect(te.k, "enter", te.uid, 0);
                 stack_push(te.k, te.uid);
@@ -460,7 +463,7 @@ fn exec(op: &Value) {
                 let r = std::panic::catch_unwind(std::panic::AssertUnwindSafe(|| te.fut.as_mut().poll(&mut cx)));
                 expect(te.k, "exit", te.uid, 0);
                 stack_pop(te.k, te.uid);
-                if te.with_dispatch {
+                if te.with_dispatch.is_some() {
                     TC.with(|tc| tc.borrow_mut().model_defaults.pop());
                 }
                 match r {
@@ -473,7 +476,7 @@ fn exec(op: &Value) {
             let task = op["task"].as_u64().unwrap_or(0) as usize % NTASKS;
             let te = m(|mo| mo.tasks[task].take());
             if let Some(te) = te {
-                if te.with_dispatch {
+                if te.with_dispatch.is_some() {
                     m(|mo| mo.tasks[task] = Some(te));
                 } else {
                     // taking the wrapper apart releases the span handle and nothing else: the span is not
@@ -613,7 +616,7 @@ impl Engine for SpanEngine {
         &["C03"]
     }
     fn rule(&self, _p: &str) -> String {
-        "program over handle slots {new (contextual/explicit/root parent), clone, drop, entered/exit/guard drop in any order, nested in_scope/enter scopes incl. panics, record, follows_from, Span::current, or_current, switch the thread's default to the other collector or none, spawn an instrumented task (tracing Instrument, in_current_span, with_collector, tracing-futures) whose body runs such ops with yield points, poll it on any thread, cancel it, take it apart again with into_inner} executed as a seeded total order on 1-3 threads, under collectors that keep ids on clone_span or (a third of the runs) hand out a fresh id per handle; non-trivial = at least one task polled on a thread other than the one that spawned it or cancelled mid-way, and at least one operation executed under a default different from the span's own collector; distinct = distinct plan digest".into()
+        "program over handle slots {new (contextual/explicit/root parent), clone, drop, entered/exit/guard drop in any order, nested in_scope/enter scopes incl. panics, record, follows_from, Span::current, or_current, switch the thread's default to the other collector or none, spawn an instrumented task (tracing Instrument, in_current_span, with_collector of the other collector or of the no-op collector, tracing-futures) whose body runs such ops with yield points, poll it on any thread, cancel it, take it apart again with into_inner} executed as a seeded total order on 1-3 threads, under collectors that keep ids on clone_span or (a third of the runs) hand out a fresh id per handle; non-trivial = at least one task polled on a thread other than the one that spawned it or cancelled mid-way, and at least one operation executed under a default different from the span's own collector; distinct = distinct plan digest".into()
     }
     fn components(&self) -> Value {
         json!({"real": ["tracing::Span, Entered/EnteredSpan guards, in_scope", "tracing::instrument::{Instrumented, WithDispatch}", "tracing_futures::Instrumented", "tracing-core dispatch"],
@@ -642,7 +645,7 @@ impl Engine for SpanEngine {
                 77..=79 => json!({"t": t, "op": "emit", "site": rng.below(20)}),
                 80..=83 => json!({"t": t, "op": "switch_default", "k": *rng.pick(&[1i64, 1, -1, 0])}),
                 84..=86 => json!({"t": t, "op": "restore_default"}),
-                87..=91 => json!({"t": t, "op": "spawn", "task": rng.below(NTASKS as u64), "slot": slot, "wrap": *rng.pick(&["instrument", "instrument", "tf", "with_dispatch", "in_current"]), "body": gen_body(&mut rng, 0, true)}),
+                87..=91 => json!({"t": t, "op": "spawn", "task": rng.below(NTASKS as u64), "slot": slot, "wrap": *rng.pick(&["instrument", "instrument", "tf", "with_dispatch", "with_none", "in_current"]), "body": gen_body(&mut rng, 0, true)}),
                 92..=95 => json!({"t": t, "op": "poll", "task": rng.below(NTASKS as u64)}),
                 96..=97 => json!({"t": t, "op": "into_inner", "task": rng.below(NTASKS as u64)}),
                 _ => json!({"t": t, "op": "cancel", "task": rng.below(NTASKS as u64)}),
@@ -710,8 +713,27 @@ impl Engine for SpanEngine {
     }
 }
 
+/// `true` iff `T: Send` (autoref specialisation: the inherent method exists only for `T: Send`).
+struct SendProbe<T>(std::marker::PhantomData<T>);
+impl<T: Send> SendProbe<T> {
+    fn is_send(&self) -> bool {
+        true
+    }
+}
+trait NotSendFallback {
+    fn is_send(&self) -> bool {
+        false
+    }
+}
+impl<T> NotSendFallback for SendProbe<T> {}
+
 /// Compare the collectors' actual call sequence with the expected one and run the A3 automaton.
 fn oracle(steps: &[Value], mo: &Model, log: &[Rec], per_handle: bool) {
+    // "every enter matched by one exit on the same thread" rests on the guards not being sendable
+    if SendProbe::<tracing::span::Entered<'static>>(std::marker::PhantomData).is_send() || SendProbe::<tracing::span::EnteredSpan>(std::marker::PhantomData).is_send() {
+        violation("guard-is-send", "span::Entered / span::EnteredSpan implement Send: a guard can be dropped (and its span exited) on another thread than the one that entered it");
+        return;
+    }
     if let Some(n) = mo.notes.first() {
         violation("enabled-mismatch", n.clone());
         return;
